@@ -563,6 +563,64 @@ Section ListTemplate.
     Qed.
   End NoFinal.
 
+  (* ---------------------------------------------------------------- *)
+  (* empty bracket pair, absent optional list, empty bracket-less list  *)
+
+  Lemma empty_brackets_l : forall E op c b1 b2 fc fch,
+    tmpl_get (e_tmpl E) result = Some (TL T) ->
+    lo_open o = Some op -> lo_close o = Some c -> rname b1 = op -> rname b2 = c ->
+    valid P (RNode result [b1; b2]) = true /\
+    cl E (RNode result [b1; b2]) (MClean fc fch) = Ok (OTe (mkTe result true (CList [])) fch).
+  Proof.
+    intros E op c b1 b2 fc fch HT Eo Ec H1 H2.
+    assert (Pop : In op (lpunct o)) by (unfold lpunct; rewrite Eo; simpl; tauto).
+    assert (Pc : In c (lpunct o)) by (unfold lpunct; rewrite Eo, Ec; destruct (lo_delim o); simpl; tauto).
+    assert (V : valid P (RNode result [b1; b2]) = true).
+    { rewrite (valid_node _ _ _ _ P_result). cbn [is_nil negb map forallb].
+      rewrite (valid_ext P b1) by (rewrite H1; now apply P_punct).
+      rewrite (valid_ext P b2) by (rewrite H2; now apply P_punct).
+      rewrite syms_existsb; [reflexivity|].
+      rewrite sigs_eq. apply sig_prods_in. unfold lp_of. rewrite Eo, Ec, H1, H2. cbn [is_some].
+      destruct (lo_opt o); simpl; tauto. }
+    split; [exact V|].
+    rewrite (list_denote_l E (RNode result [b1; b2]) fc fch HT eq_refl V). cbn [is_rnull]. rewrite andb_false_r.
+    unfold litems. fold T. fold P. rewrite (frontier_node _ _ _ _ P_result).
+    rewrite punct_children_items; [reflexivity|].
+    constructor; [now rewrite H1|constructor; [now rewrite H2|constructor]].
+  Qed.
+
+  Lemma absent_optional_l : forall E fc fch,
+    tmpl_get (e_tmpl E) result = Some (TL T) -> lo_opt o = true ->
+    valid P (RNull result) = true /\
+    cl E (RNull result) (MClean fc fch) = Ok (OTe (mkTe result true CNone) fch).
+  Proof.
+    intros E fc fch HT Hopt.
+    assert (V : valid P (RNull result) = true).
+    { rewrite (valid_null _ _ _ P_result). apply syms_existsb.
+      rewrite sigs_eq. apply sig_prods_in. unfold lp_of. rewrite Hopt.
+      apply in_map_iff. exists []. split; [reflexivity|]. apply in_or_app. right. now left. }
+    split; [exact V|].
+    rewrite (list_denote_l E (RNull result) fc fch HT eq_refl V), Hopt. reflexivity.
+  Qed.
+
+  Lemma bracketless_empty_l : forall E fc fch,
+    tmpl_get (e_tmpl E) result = Some (TL T) -> lo_open o = None ->
+    valid P (RNull result) = true /\
+    cl E (RNull result) (MClean fc fch) = Ok (OTe (mkTe result true (CList [])) fch).
+  Proof.
+    intros E fc fch HT Eo.
+    assert (Ec : lo_close o = None).
+    { pose proof (lok_br _ _ OK) as B. rewrite Eo in B. destruct (lo_close o); [discriminate|reflexivity]. }
+    assert (Hopt : lo_opt o = false).
+    { destruct (lo_opt o) eqn:Ho; [|reflexivity]. pose proof (lok_opt _ _ OK Ho) as B. rewrite Eo in B. discriminate. }
+    assert (V : valid P (RNull result) = true).
+    { rewrite (valid_null _ _ _ P_result). apply syms_existsb.
+      rewrite sigs_eq. apply sig_prods_in. unfold lp_of. rewrite Hopt, Eo, Ec. cbn [is_some]. simpl. tauto. }
+    split; [exact V|].
+    rewrite (list_denote_l E (RNull result) fc fch HT eq_refl V), Hopt.
+    unfold litems. fold T. fold P. rewrite (frontier_null _ _ _ P_result). reflexivity.
+  Qed.
+
   (* the (delimiter,) production contributes no item *)
   Lemma final_delim_no_item : forall d dl,
     lo_delim o = Some d -> rname dl = d ->
